@@ -118,9 +118,16 @@ class XGraph:
         return self.node.get(cur) if cur is not None else None
 
 
-def x_add_cases(cases, graph, archives):
-    """Append archives that are not cases yet (e.g. the ones a deviation lets escape), predicted by the ideal graph"""
+def x_add_cases(cases, graph, archives, limit=None):
+    """Append archives that are not cases yet (e.g. the ones a deviation lets escape), predicted by the ideal graph.
+    limit: at most that many, the shortest ones first and the rest evenly spread over the (sorted) remainder"""
     have = set(arch_key(c["arch"]) for c in cases)
+    archives = sorted((a for a in archives if arch_key(a) not in have), key=lambda a: (len(a), arch_key(a)))
+    if limit is not None and len(archives) > limit:
+        short = [a for a in archives if len(a) <= 2][:limit // 2]
+        rest = [a for a in archives if len(a) > 2]
+        step = max(1, len(rest) // max(1, limit - len(short)))
+        archives = short + rest[::step][:limit - len(short)]
     added = 0
     for a in archives:
         k = arch_key(a)
